@@ -462,6 +462,9 @@ func (fe *hlslFE) parseTypeName(p *parser) *TypeExpr {
 	}
 	p.next()
 	tx.Name = t.Text
+	if nt, ok := hlslNumericType(t.Text); ok && nt.Kind == KOpaque && !p.isTypeName(t.Text) {
+		t.Pos.unsupported(HLSL, "type %s (16-bit, 64-bit, minimum-precision, 1-component and integer-matrix types are not modelled)", t.Text)
+	}
 	if hlslObjectTypes[t.Text] && p.isPunct("<") {
 		// object type with template arguments: skip them, keep the text
 		depth := 0
@@ -737,7 +740,10 @@ func (fe *hlslFE) parsePrimary(p *parser) Expr {
 	if t.Kind != TIdent {
 		return nil
 	}
-	if _, isNum := hlslNumericType(t.Text); isNum && !p.varHides(t.Text) {
+	if nt, isNum := hlslNumericType(t.Text); isNum && !p.varHides(t.Text) {
+		if nt.Kind == KOpaque {
+			t.Pos.unsupported(HLSL, "type %s (16-bit, 64-bit, minimum-precision, 1-component and integer-matrix types are not modelled)", t.Text)
+		}
 		// functional cast / numeric constructor: T(args)
 		n := p.peekN(1)
 		if !(n.Kind == TPunct && n.Text == "(") {
